@@ -26,6 +26,7 @@ def rich_start(rng):
         {"op": "create_source", "par": 1, "name": "t", "type": "t"},
         {"op": "create_source", "par": 2, "name": "s", "type": "t"},
         {"op": "link_append", "okind": "array", "o": 0, "list": 0, "t": 2},
+        {"op": "link_append", "okind": "array", "o": 0, "list": 0, "t": 1},      # two members of one subtree in one list
         {"op": "link_append", "okind": "array", "o": 1, "list": 0, "t": rng.randrange(3)},
         {"op": "create_group", "blk": 0, "name": "a", "type": "t"},
         {"op": "link_append", "okind": "group", "o": 0, "list": 0, "t": 0},
@@ -87,7 +88,7 @@ class C03(Profile):
     name = "C03"
     weights = {"create_block": 3, "create_group": 4, "create_array": 4, "create_tag": 3, "create_mtag": 2,
                "create_feature": 2, "create_source": 5, "create_section": 5, "create_property": 4,
-               "create_frame": 3, "link_append": 5, "link_remove": 3, "delete": 9, "restart": 3}
+               "create_frame": 3, "link_append": 5, "link_remove": 3, "delete": 9, "restart": 3, "sec_dict": 2}
     owned = ("container_agreement", "id_unique", "missing_refusal", "wrong_error_class", "unexpected_error",
              "create_result", "lookup_failed", "lookup_wrong_entity", "reopen_failed")
     reopen_introspect = False
@@ -99,7 +100,10 @@ class C03(Profile):
     def owns(self, oracle, site, cls):
         if oracle == "unexpected_error":
             # legal names are accepted; an entity can be deleted through its name / id / position
-            return site.startswith("create_") or (site.startswith("delete_") and not site.endswith(":obj"))
+            # (sec_setitem_new: a property created under a free name through the dictionary route)
+            return site.startswith(("create_", "sec_setitem_new")) or (site.startswith("delete_") and not site.endswith(":obj"))
+        if oracle == "sec_dict_mismatch":
+            return site == "sec_setitem_new"
         return Profile.owns(self, oracle, site, cls)
 
     def tune_knobs(self, k, rng):
